@@ -393,7 +393,7 @@ def gen_workload(rng, tier):
     from iodata.api import FORMAT_MODULES
 
     mod = c07.natural_fmt(f)
-    if rng.random() < (0.6 if f in dict((p_[0], 1) for p_ in INLINE_PAIRS) else 0.25):
+    if rng.random() < (0.6 if f in dict((p_[0], 1) for p_ in INLINE_PAIRS) else 0.33):
         # what the interpreter did before: one or two unrelated conversions
         w["prelude"] = []
         same = [pr for pr in PAIRS + INLINE_PAIRS if c07.natural_fmt(pr[0]) == mod and pr[0] != f]
@@ -401,7 +401,7 @@ def gen_workload(rng, tier):
             # often a file of the same format (shared parser state is the likeliest channel between conversions)
             pf, pfmt, pouts = rng.choice(same) if same and rng.random() < 0.6 else rng.choice(PAIRS + INLINE_PAIRS)
             w["prelude"].append({"input_file": pf, "input_name": pf, "output_name": rng.choice(pouts), "infmt": pfmt})
-            if hasattr(FORMAT_MODULES.get(c07.natural_fmt(pf)), "load_many") and rng.random() < 0.4:
+            if hasattr(FORMAT_MODULES.get(c07.natural_fmt(pf)), "load_many") and rng.random() < 0.6:
                 w["prelude"][-1]["suspend"] = True
     if hasattr(FORMAT_MODULES[mod], "load_many") and rng.random() < 0.5:
         w["many"] = True
